@@ -4,6 +4,7 @@ from harness import sets_common as sc
 PROP = "C06"
 THEOREM_FILE = "Props/C06.v"
 EXTRA_THEOREM_FILES = ["Props/C06_bulk.v", "Props/C06_add.v", "Props/C06_src.v", "Props/C06_src_add.v", "Props/C06_src_bulk.v", "Props/C06_src_state.v"]
+EXTRA_THEOREM_FILES.append("Props/C06_code.v")   # CODC: the C06 theorems stated about the regenerated definitions
 RULE = ("random operation histories (length <= 30) on four IPSet registers over 1-3 small arenas at both ends of both "
         "address spaces plus wide blocks (/0, top/bottom ranges, globs, ints): every constructor form, add, remove, "
         "update, clear, pop, compact, copy, pickle (protocols 0-5) and | & - ^; after every step the stored keys (in dict "
